@@ -530,6 +530,56 @@ def reuse_check(cfg, alphabet, vio_cap=3):
     return vs, runs
 
 
+def io_reuse_check(cfg, alphabet, vio_cap=3):
+    """One I/O object serves two dialogues: the first runs into the end of the input (or ends early), then new lines are
+    fed to the same input stream (set / append, what BufferedIO.set_input / append_input do) and a fresh question is asked
+    on it: it must behave as on a fresh I/O holding those lines."""
+    c = _classes()
+    scripts = [()] + [(a,) for a in alphabet]
+    vs = []
+    runs = 0
+    fresh = {}
+    for s in scripts:
+        fresh[s] = ask(make_choice(cfg), s)
+        runs += 1
+    for s1 in scripts:
+        for s2 in scripts:
+            for how in ("set", "append"):
+                io, inp, out, err = make_io(s1)
+                try:
+                    make_choice(cfg).ask(io)
+                except BudgetExceeded:
+                    continue  # the first dialogue itself is broken: reported by the tree exploration
+                except Exception:
+                    pass
+                if how == "append" and inp.read_line() != "":
+                    continue  # (only when the first dialogue left nothing unread is "append" the same as a fresh input)
+                reads0 = inp.reads
+                inp.budget = reads0 + len(s2) + 2
+                err.clear()
+                err.writes = 0
+                getattr(inp, how)("".join(l + "\n" for l in s2))
+                try:
+                    val = make_choice(cfg).ask(io)
+                    o2 = ("return", val)
+                except BudgetExceeded as e:
+                    o2 = ("budget", e.which)
+                except Exception as e:
+                    o2 = ("raise", "%s: %s" % (type(e).__name__, e))
+                runs += 2
+                f = fresh[s2]
+                got = (o2[0], o2[1], inp.reads - reads0, err.fetch())
+                if got != (f["outcome"], f["detail"], f["reads"], f["err"]):
+                    if len(vs) < vio_cap:
+                        case = dict(cfg, kind="io-reuse", script=list(s1), script2=list(s2), how=how)
+                        vs.append(report.viol("io-reuse:second-dialogue-differs:" + how,
+                                              "a question asked on an I/O object that served an earlier dialogue (input re-fed with %s) behaves "
+                                              "differently from a fresh I/O | choices=%r multi=%r default=%r attempts=%r first=%r second=%r" % (
+                                                  how, cfg["choices"], cfg["multi"], cfg["default"], cfg["attempts"], list(s1), list(s2)),
+                                              case, [f["outcome"], f["detail"], f["reads"]], list(got[:3])))
+    return vs, runs
+
+
 # ----------------------------------------------------------------------------------------------
 # confirmation questions
 # ----------------------------------------------------------------------------------------------
@@ -657,6 +707,13 @@ def replay(case):
             return report.viol("reuse:second-ask-differs", "second ask on the same object differs from a fresh one", case,
                                {k: f[k] for k in ("outcome", "detail", "reads")}, {k: o2[k] for k in ("outcome", "detail", "reads")})
         return None
+    if kind == "io-reuse":
+        cfg = _cfg_of(case)
+        vs, _ = io_reuse_check(cfg, sorted(set(case["script"]) | set(case["script2"])), vio_cap=1000)
+        for v in vs:
+            if v["case"]["script"] == case["script"] and v["case"]["script2"] == case["script2"] and v["case"]["how"] == case["how"]:
+                return v
+        return None
     if kind == "confirm":
         return confirm_case(case["pattern"], case["default"], case["answer"])
     if kind == "nonint":
@@ -698,6 +755,9 @@ def main():
                     vs.append(v)
             rv, n = reuse_check(cfg, alphabet)
             tot["reuse_runs"] += n
+            rv2, n2 = io_reuse_check(cfg, alphabet)
+            tot["reuse_runs"] += n2
+            rv = rv + rv2
             vs.extend(rv)
         tot["stty_calls"] = _NoSubprocess.calls - calls0
         # keep the first few per signature only (the Report keeps the first anyway)
